@@ -71,7 +71,7 @@ def jobs(tier):
         p['ops'] = ops
         out.append(Job('C17', 'c17:h_rw', p, W=96, wall=wall if q else 1800, max_paths=20000, validate=1))
 
-    sizes = [1, 2, 7, 8, 9, 16, 20] if q else list(range(1, 41)) + [254, 255]
+    sizes = [1, 2, 7, 8, 9, 16, 20] if q else list(range(1, 256))
     for sk in (False, True):
         for n in sizes:
             J([['read', n, 1, 0, 1]], seed_key=sk)
@@ -98,12 +98,21 @@ def jobs(tier):
         J([['write', 2, 2], ['read', 20, 1, 0, 1]], seed_key=sk, cli=253)
     J([['read', 20, 1, 0, 1]], explore=True)
     J([['write', 20, 1]], explore=True)
+    if not q:
+        for sk in (False, True):
+            for n in (8, 9, 15, 30):
+                J([['read', n, 1, 0, 1]], explore=True, seed_key=sk, wall=3000)
+                J([['write', n, 1]], explore=True, seed_key=sk, wall=3000)
+            for (n, size) in [(16, 2), (24, 4), (64, 8), (248, 8), (252, 4), (254, 2)]:
+                for signed in (0, 1):
+                    J([['read', n, size, signed, 0]], seed_key=sk)
+                J([['write', n, size]], seed_key=sk)
     return out
 
 
 def meta(tier):
     return {
-        'bounds': ['data lengths ' + ('{1,2,7,8,9,16,20}' if tier == 'quick' else '1..40, 254, 255') + ' bytes (single-frame DM16 up to 7, RTS/CTS above), object sizes 1/2/4/8',
+        'bounds': ['data lengths ' + ('{1,2,7,8,9,16,20}' if tier == 'quick' else 'every length 1..255') + ' bytes (single-frame DM16 up to 7, RTS/CTS above), object sizes 1/2/4/8',
                    '32-bit pointer, every data byte supplied by the server, every written value (full unsigned range), the seed (1..0xFFFE) symbolic; key function seed ^ 0xFFFF',
                    'read raw / converted, signed / unsigned; direct and spatial addressing; with and without seed/key; client through MemoryAccess and through Dm14Query',
                    '1..3 transactions back to back on the same objects; canonical schedule (all interleavings for one 20-byte read and write)'],
